@@ -10,11 +10,13 @@ set_option linter.unusedVariables false
 namespace Mqtt.Proofs.Lifecycle
 open Mqtt.Model.Lifecycle
 
-/-- the configuration of the code as it is: repaired ring, `stop` in the order of service.go, a
-ring that holds a read block plus the longest packet header -/
+/-- the configuration of the code as it is: repaired ring, `stop` in the order of service.go, the
+receiver closes the socket when its read fails (b77088f), a ring that holds a read block plus the
+longest packet header -/
 structure WF (c : Cfg) : Prop where
   d2 : c.d2 = false
   prog : c.stopProg = stopProgram
+  rc : c.recvCloses = true
   rblock : 0 < c.rblock
   wblock : 0 < c.wblock
   room : 5 + c.rblock ≤ c.cap
@@ -211,8 +213,9 @@ theorem rstep_rank (c : Cfg) (hw : WF c) (sh sh' : Sh) (k : Nat) (pc pc' : RPc)
       obtain ⟨ret, r⟩ := p
       cases ret <;> simp [hs] at h <;> obtain ⟨rfl, rfl⟩ := h <;> simp [rankR] <;> omega
   | close =>
-    simp only [rstep, close_returns c hw.d2] at h
+    simp only [rstep, close_returns c hw.d2, hw.rc] at h
     simp at h; obtain ⟨rfl, rfl⟩ := h; simp [rankR]
+  | connClose => simp [rstep] at h; obtain ⟨rfl, rfl⟩ := h; simp [rankR]
   | wgDone => simp [rstep] at h; obtain ⟨rfl, rfl⟩ := h; simp [rankR]
   | exited => simp [rstep] at h
 
